@@ -617,7 +617,7 @@ class Program:
         todo = []
         for fi in list(self.funcs):
             for c in ast.walk(fi.node):
-                if not isinstance(c, ast.Call) or not c.keywords or any(isinstance(x, ast.Starred) for x in c.args) or any(k.arg is None for k in c.keywords):
+                if not isinstance(c, ast.Call) or not (c.keywords or c.args) or any(isinstance(x, ast.Starred) for x in c.args) or any(k.arg is None for k in c.keywords):
                     continue
                 try:
                     tg = self.resolve_call(fi, c)
@@ -659,6 +659,9 @@ class Program:
             if moved:
                 c.args = [*c.args, *[m.value for m in moved]]
                 c.keywords = [kw for kw in c.keywords if kw not in moved]
+            # parameter name -> position, for every positional argument of the call: rules that ask for "the argument
+            # bound to parameter p" (rules.common.kwarg) find it whether it was written by keyword or by position
+            c._kwpos = {pos[i]: i for i in range(min(len(c.args), len(pos)))}
 
     def _collect_inst_attrs(self, ci: ClassInfo) -> None:
         def add(name: str, value) -> None:
